@@ -41,6 +41,22 @@ type seqEngine struct {
 	mp        *mhprimary.MultihashPrimary
 	kind      string
 	ifs       uint32
+	lastOpts  []store.Option
+	lastKind  string
+	lastImm   bool
+}
+
+func copyDir(src, dst string) {
+	ents, _ := os.ReadDir(src)
+	for _, ent := range ents {
+		if ent.IsDir() {
+			continue
+		}
+		data, err := os.ReadFile(filepath.Join(src, ent.Name()))
+		if err == nil {
+			os.WriteFile(filepath.Join(dst, ent.Name()), data, 0o644)
+		}
+	}
 }
 
 func (e *seqEngine) Close() {
@@ -147,9 +163,11 @@ func (e *seqEngine) Exec(op *Op) string {
 			kind = store.CIDPrimary
 		}
 		e.kind = op.Arg("kind")
-		st, err := store.OpenStore(context.Background(), kind, e.dataPath, e.indexPath, imm,
-			store.IndexBitSize(uint8(bits)), store.IndexFileSize(uint32(ifs)), store.PrimaryFileSize(uint32(pfs)),
-			store.GCInterval(0), store.SyncInterval(time.Hour), store.FileCacheSize(3))
+		e.lastOpts = []store.Option{store.IndexBitSize(uint8(bits)), store.IndexFileSize(uint32(ifs)), store.PrimaryFileSize(uint32(pfs)),
+			store.GCInterval(0), store.SyncInterval(time.Hour), store.FileCacheSize(3)}
+		e.lastKind = kind
+		e.lastImm = imm
+		st, err := store.OpenStore(context.Background(), kind, e.dataPath, e.indexPath, imm, e.lastOpts...)
 		if err != nil {
 			var e1 types.ErrIndexWrongBitSize
 			var e2 types.ErrIndexWrongFileSize
@@ -249,6 +267,64 @@ func (e *seqEngine) Exec(op *Op) string {
 			return "err:other order=" + strings.Join(order, ",")
 		}
 		return "ok order=" + strings.Join(order, ",")
+	case "paths":
+		// C02 oracle on the implementation alone: the live bucket table at Close, the table rebuilt from the
+		// snapshot and the table rebuilt by rescanning the log must be equal.
+		idx0 := e.st.Index()
+		fn, ln := idx0.VerifFileState()
+		err := e.st.Close()
+		order := e.indexRecordsSince(fn, int64(ln))
+		e.st = nil
+		e.mp = nil
+		if err != nil {
+			return "err:close order=" + strings.Join(order, ",")
+		}
+		t0 := idx0.VerifBuckets() // the table as Close left it (after its final flush)
+		verdict := "same"
+		for i, drop := range []bool{false, true} {
+			cp, err := os.MkdirTemp("", "sthv-seq-cp-")
+			if err != nil {
+				return "err:other order=" + strings.Join(order, ",")
+			}
+			copyDir(e.dir, cp)
+			if drop {
+				os.Remove(filepath.Join(cp, "storethehash.index.buckets"))
+			}
+			opts := e.lastOpts
+			st2, err := store.OpenStore(context.Background(), e.lastKind, filepath.Join(cp, "storethehash.data"), filepath.Join(cp, "storethehash.index"), e.lastImm, opts...)
+			if err != nil {
+				verdict = fmt.Sprintf("open-failed-path%d", i)
+				os.RemoveAll(cp)
+				break
+			}
+			t := st2.Index().VerifBuckets()
+			st2.Close()
+			os.RemoveAll(cp)
+			if len(t) != len(t0) {
+				verdict = fmt.Sprintf("differ-path%d-len", i)
+				break
+			}
+			for b := range t {
+				if t[b] != t0[b] {
+					verdict = fmt.Sprintf("differ-path%d-bucket%d:%d!=%d", i, b, t[b], t0[b])
+					break
+				}
+			}
+			if verdict != "same" {
+				break
+			}
+		}
+		// reopen the original with its snapshot
+		st, err := store.OpenStore(context.Background(), e.lastKind, e.dataPath, e.indexPath, e.lastImm, e.lastOpts...)
+		if err != nil {
+			return "err:reopen order=" + strings.Join(order, ",") + " tables=" + verdict
+		}
+		e.st = st
+		e.mp, _ = st.Primary().(*mhprimary.MultihashPrimary)
+		if e.mp != nil {
+			e.mp.VerifNewGC(st.VerifFreeList(), st.Index().Update)
+		}
+		return "ok order=" + strings.Join(order, ",") + " tables=" + verdict
 	case "igc":
 		budget, _ := strconv.Atoi(op.Arg("budget"))
 		ctx := &countCtx{Context: context.Background(), left: budget}
